@@ -15,7 +15,14 @@ package cluster
 //                        section - cluster.keepAliveLease grants the member a new lease -, then some
 //                        component of that member asks for a cluster mutex of another name; its
 //                        goroutines obtain their handle with cluster.Mutex(name) before every Lock, the
-//                        other members contend all the time), each followed by probes: at quiescence
+//                        other members contend all the time), "T" (same-member time-outs: one member's
+//                        handle has a short time-out, one of its goroutines holds the lock for longer
+//                        than that while other goroutines of the SAME member call Lock, again and
+//                        again - whether they wait it out or give up at the deadline -, sometimes with
+//                        another member contending), "R" (registry: on one member some goroutines keep
+//                        the handle they fetched once, the others call cluster.Mutex(name) afresh before
+//                        every Lock, all locking / unlocking back to back so that there is a waiter on the
+//                        handle at nearly every Unlock), each followed by probes: at quiescence
 //                        every handle must be lockable again.
 
 import (
@@ -642,6 +649,74 @@ func TestVerifC18Mutex(t *testing.T) {
 			regrants++
 		}
 		w.Emit(vx.M{"ev": "end", "scen": scen, "max_inside": int(maxIn), "completed": ok, "regranted": atomic.LoadInt32(&regranted) == 1})
+		if !ok {
+			w.Emit(vx.M{"ev": "summary", "scenarios": scen, "short_timeout_scenarios": shortTimeouts, "lease_regrants": regrants, "aborted": true})
+			return
+		}
+	}
+	// ---- T: same-member time-outs. The handle of member M has a short time-out; g0 of M holds the lock for
+	// longer than that, the other goroutines of M keep calling Lock meanwhile (with and without pauses).
+	nT := vx.EnvInt("VERIF_NT", 2)
+	for i := 0; i < nT; i++ {
+		scen++
+		name := fmt.Sprintf("/verif/lock-%d", scen)
+		nm := len(ce.members)
+		M := i % nm
+		to := time.Duration(300+rng.Intn(200)) * time.Millisecond
+		shortTimeouts++
+		hM := mk(M, name, fmt.Sprintf("h%d", M), to)
+		handles := []*c18Handle{hM}
+		workers := []c18Worker{{p: "g0", h: hM, rounds: 2, noPause: true, holdMin: to + 200*time.Millisecond, holdMax: 300 * time.Millisecond, seed: rng.Int63()}}
+		for k := 0; k < 2+rng.Intn(2); k++ {
+			workers = append(workers, c18Worker{p: fmt.Sprintf("g%d", len(workers)), h: hM, rounds: 4 + rng.Intn(3), noPause: k%2 == 0,
+				holdMin: 2 * time.Millisecond, holdMax: 30 * time.Millisecond, seed: rng.Int63()})
+		}
+		if i%2 == 1 && nm > 1 {
+			o := (M + 1) % nm
+			ho := mk(o, name, fmt.Sprintf("h%d", o), 5*time.Second)
+			handles = append(handles, ho)
+			workers = append(workers, c18Worker{p: fmt.Sprintf("g%d", len(workers)), h: ho, rounds: 3, holdMax: 40 * time.Millisecond, seed: rng.Int63()})
+		}
+		ok, maxIn := c18Scenario(w, vx.M{"ev": "reset", "cfg": "T", "scen": scen, "members": nm, "handles": len(handles),
+			"workers": len(workers), "short": true, "timeout_ms": int(to / time.Millisecond)}, handles, workers, probeTimeout)
+		w.Emit(vx.M{"ev": "end", "scen": scen, "max_inside": int(maxIn), "completed": ok})
+		if !ok {
+			w.Emit(vx.M{"ev": "summary", "scenarios": scen, "short_timeout_scenarios": shortTimeouts, "lease_regrants": regrants, "aborted": true})
+			return
+		}
+	}
+	// ---- R: the member's registry of mutexes. Two goroutines of member M keep the handle they fetched once,
+	// two call cluster.Mutex(name) before every Lock; back-to-back Lock / Unlock with delayed etcd requests.
+	nR := vx.EnvInt("VERIF_NR", 2)
+	for i := 0; i < nR; i++ {
+		scen++
+		name := fmt.Sprintf("/verif/lock-%d", scen)
+		nm := len(ce.members)
+		M := i % nm
+		mem := ce.members[M]
+		kept := mk(M, name, fmt.Sprintf("h%d", M), 5*time.Second)
+		fresh := &c18Handle{id: fmt.Sprintf("h%df", M), member: M, fresh: func() (Mutex, error) { return mem.Mutex(name) }}
+		handles := []*c18Handle{kept, fresh}
+		var workers []c18Worker
+		for k := 0; k < 4; k++ {
+			h := kept
+			if k%2 == 1 {
+				h = fresh
+			}
+			workers = append(workers, c18Worker{p: fmt.Sprintf("g%d", len(workers)), h: h, rounds: 8 + rng.Intn(5), noPause: k < 3,
+				holdMin: 3 * time.Millisecond, holdMax: 18 * time.Millisecond, seed: rng.Int63()})
+		}
+		if i%2 == 1 && nm > 1 {
+			o := (M + 1) % nm
+			ho := mk(o, name, fmt.Sprintf("h%d", o), 5*time.Second)
+			handles = append(handles, ho)
+			workers = append(workers, c18Worker{p: fmt.Sprintf("g%d", len(workers)), h: ho, rounds: 4, holdMax: 20 * time.Millisecond, seed: rng.Int63()})
+		}
+		ce.setJitter(int64(500 + rng.Intn(3000)))
+		ok, maxIn := c18Scenario(w, vx.M{"ev": "reset", "cfg": "R", "scen": scen, "members": nm, "handles": len(handles),
+			"workers": len(workers), "short": false}, handles, workers, probeTimeout)
+		ce.setJitter(0)
+		w.Emit(vx.M{"ev": "end", "scen": scen, "max_inside": int(maxIn), "completed": ok})
 		if !ok {
 			w.Emit(vx.M{"ev": "summary", "scenarios": scen, "short_timeout_scenarios": shortTimeouts, "lease_regrants": regrants, "aborted": true})
 			return
